@@ -487,6 +487,9 @@ func (e *FuncEnc) encodeConvert(x *ssa.Convert) {
 		f := e.D.UF("bytes_of_str", []string{"Str"}, "Slice")
 		e.D.Axiom("bytes_of_str", "(forall ((s Str)) (! (and (= (sl_len (bytes_of_str s)) (slen s)) (= (sl_off (bytes_of_str s)) 0) (>= (sl_cap (bytes_of_str s)) (slen s)) (> (sl_base (bytes_of_str s)) 0)) :pattern ((bytes_of_str s))))")
 		e.setVal(x, "Slice", sx(f, v))
+		if _, used := e.heapSorts[fsKey]; used || (e.W != nil && len(e.W.FSWriters) > 0) {
+			e.assume(e.curReach, eq(e.bcontent(e.val[x], e.cur), sx("strbytes", v)))
+		}
 	case fs == "Slice" && ts == "Str":
 		f := e.D.UF("str_of_bytes", []string{"Slice", "Int"}, "Str")
 		// content depends on the byte heap: pass an epoch marker so that two
